@@ -89,6 +89,7 @@ m("c09-f22-revert", GL, "                obj=manager if manager is not None else
 m("c01-f23-revert", LL, "            obj=getattr(frame_details.stack[block.level - 1], \"__self__\", None),", "            obj=frame_details.stack[block.level - 1].__self__,", "C01", "prog312,prog39")
 m("c09-f24-revert", GL, "                    or getattr(callback.__func__, \"__name__\", None)\n                    in (\"__exit__\", \"__aexit__\")", "                    or callback.__func__.__name__ in (\"__exit__\", \"__aexit__\")", "C09", "w312,w39")
 m("c07-f25-revert", L311, "            if lasti_during != lasti_before:\n                raise _ConcurrentModification\n", "", "C07", "racing312,racing311")
+m("c02-f26-revert", GL, "            agen.ag_frame.f_back is not None or agen.ag_await is None", "            agen.ag_await is None", "C02", "hotloop312,hotloop311")
 m("c07-thread-alive-check", GL, "        if inner_frame is None or not thread.is_alive() or not was_alive:", "        if inner_frame is None:", "C07", "blocked312,racing312")
 # ---- C08 -------------------------------------------------------------------
 m("c08-async-skip-insns", LL, "            skip_insns = 7 if is_async else 1", "            skip_insns = 6 if is_async else 1", "C08", "w312,w311")
